@@ -375,6 +375,7 @@ Qed.
 
 Section Inv.
   Variable matching : nat -> nat -> list range3.
+  Variable old : bool.
   Variable text : nat -> text.
   Variable start : nat.
   Variable nodes : list node.
@@ -421,7 +422,7 @@ Section Inv.
     Inv st -> anc (fst nd) start -> good_map (fst nd) curmap ->
     (forall x s, In (x, s) curmap -> forall e', In e' done ->
         in_ranges x (matching (fst nd) (fst e')) = false) ->
-    process_edge matching (fst nd) (st, curmap) e = (st', curmap') ->
+    process_edge matching old (fst nd) (st, curmap) e = (st', curmap') ->
     Inv st' /\ good_map (fst nd) curmap' /\
     (forall x s, In (x, s) curmap' -> forall e', In e' (done ++ [e]) ->
         in_ranges x (matching (fst nd) (fst e')) = false).
@@ -503,7 +504,7 @@ Section Inv.
     Inv st -> good_map (fst nd) curmap ->
     (forall x s, In (x, s) curmap -> forall e', In e' done ->
         in_ranges x (matching (fst nd) (fst e')) = false) ->
-    fold_left (process_edge matching (fst nd)) es2 (st, curmap) = (st', curmap') ->
+    fold_left (process_edge matching old (fst nd)) es2 (st, curmap) = (st', curmap') ->
     Inv st' /\ good_map (fst nd) curmap' /\
     (forall x s, In (x, s) curmap' -> forall e', In e' (done ++ es2) ->
         in_ranges x (matching (fst nd) (fst e')) = false).
@@ -511,7 +512,7 @@ Section Inv.
     intros Hnd Hanc. induction es2 as [|e es2 IH]; intros done st curmap st' curmap' Hsub Hi Hg Hd H.
     - cbn in H. inversion H; subst. rewrite app_nil_r. auto.
     - cbn [fold_left] in H.
-      destruct (process_edge matching (fst nd) (st, curmap) e) as [st1 cm1] eqn:E1.
+      destruct (process_edge matching old (fst nd) (st, curmap) e) as [st1 cm1] eqn:E1.
       destruct (process_edge_inv nd e st curmap st1 cm1 done Hnd (Hsub e (or_introl eq_refl))
                   Hi Hanc Hg Hd E1) as [Hi1 [Hg1 Hd1]].
       destruct (IH (done ++ [e]) st1 cm1 st' curmap'
@@ -520,7 +521,7 @@ Section Inv.
       intros x s Hin e' He'. apply (Hd2 x s Hin). rewrite <- app_assoc. exact He'.
   Qed.
 
-  Lemma process_commit_inv st nd : In nd nodes -> Inv st -> Inv (process_commit matching st nd).
+  Lemma process_commit_inv st nd : In nd nodes -> Inv st -> Inv (process_commit matching old st nd).
   Proof.
     intros Hnd Hi. unfold process_commit.
     destruct (lookup (fst nd) (st_srcs st)) as [curmap|] eqn:El; [|exact Hi].
@@ -531,7 +532,7 @@ Section Inv.
       intros c m Hl. destruct (Nat.eq_dec c (fst nd)) as [->|Hne].
       - now rewrite lookup_remove_key_eq in Hl.
       - rewrite lookup_remove_key_neq in Hl by assumption. now apply Hsrc. }
-    destruct (fold_left (process_edge matching (fst nd)) (snd nd) (st0, curmap)) as [st1 rest] eqn:Ef.
+    destruct (fold_left (process_edge matching old (fst nd)) (snd nd) (st0, curmap)) as [st1 rest] eqn:Ef.
     destruct (fold_edges_inv nd Hnd Hanc (snd nd) [] st0 curmap st1 rest
                 (fun e He => He) Hi0 Hgm (fun _ _ _ _ F => match F with end) Ef)
       as [[Hsrc1 Holm1] [[_ Hg1] Hd1]].
@@ -547,7 +548,7 @@ Section Inv.
   Qed.
 
   Lemma process_nodes_inv : forall ns st, (forall nd, In nd ns -> In nd nodes) ->
-    Inv st -> Inv (process_nodes matching st ns).
+    Inv st -> Inv (process_nodes matching old st ns).
   Proof.
     induction ns as [|nd t IH]; intros st Hsub Hi; cbn [process_nodes]; auto.
     assert (Hi' := process_commit_inv st nd (Hsub nd (or_introl eq_refl)) Hi).
@@ -555,11 +556,11 @@ Section Inv.
   Qed.
 
   Lemma process_commit_length st nd :
-    length (st_olm (process_commit matching st nd)) = length (st_olm st).
+    length (st_olm (process_commit matching old st nd)) = length (st_olm st).
   Proof.
     unfold process_commit. destruct (lookup _ _) as [curmap|]; auto.
     set (st0 := mk_state _ _ _).
-    assert (Hf : forall es acc, length (st_olm (fst (fold_left (process_edge matching (fst nd)) es acc)))
+    assert (Hf : forall es acc, length (st_olm (fst (fold_left (process_edge matching old (fst nd)) es acc)))
                                 = length (st_olm (fst acc))).
     { induction es as [|e es IH]; intros [s0 cm]; cbn [fold_left]; auto.
       rewrite IH. unfold process_edge.
@@ -573,7 +574,7 @@ Section Inv.
   Qed.
 
   Lemma process_nodes_length : forall ns st,
-    length (st_olm (process_nodes matching st ns)) = length (st_olm st).
+    length (st_olm (process_nodes matching old st ns)) = length (st_olm st).
   Proof.
     induction ns as [|nd t IH]; intros st; cbn [process_nodes]; auto.
     destruct (Nat.eqb _ _); [apply process_commit_length|].
@@ -582,8 +583,8 @@ Section Inv.
 
   (** The annotation of the model: one origin per starting line, each of them good. *)
   Theorem annotate_good nlines : nlines = length (text start) ->
-    length (annotate matching start nlines nodes) = nlines /\
-    forall s o, nth_error (annotate matching start nlines nodes) s = Some o -> good_origin s o.
+    length (annotate matching old start nlines nodes) = nlines /\
+    forall s o, nth_error (annotate matching old start nlines nodes) s = Some o -> good_origin s o.
   Proof.
     intros Hn. unfold annotate, init_state. cbn [st_olm st_srcs].
     split.
